@@ -83,6 +83,8 @@ CfgOK(c) ==
   /\ c.altfile \subseteq Regions                     \* .Trash-$uid is a regular file
   /\ c.xdg \in {"set", "unset", "empty"}
   /\ c.home \in {"set", "unset"}
+  /\ c.hlink \in {"none"} \cup Regions            \* $XDG_DATA_HOME is a symlink into this region (another volume, maybe)
+  /\ (c.hlink # "none" => c.xdg = "set")
   /\ c.kind \in [Objs -> Kinds]
 
 \* the volume (mounted region) a region belongs to
@@ -91,6 +93,9 @@ VolOfR(c, r) == IF r \in c.mounted THEN r ELSE VolOfR(c, RParent[r])
 VolOf(r) == VolOfR(cfg, r)
 
 HomeAvail(c) == c.xdg = "set" \/ c.home = "set"     \* XDG_DATA_HOME empty counts as unset
+\* the volume the home trash directory REALLY lives on (after resolving symlinked ancestors)
+HomeVol(c) == IF c.hlink = "none" THEN VolOfR(c, "H") ELSE VolOfR(c, c.hlink)
+TDirVol(c, t) == IF t = "home" THEN HomeVol(c) ELSE VolOfR(c, TReg(t))
 TopSecure(c, v) == c.top[v] = "sticky"
 
 AbsPath(r, d, n) == RPath[r] \o DPath[d] \o <<n>>
@@ -119,7 +124,7 @@ Candidates(c, fv, o) ==
 
 Accepts(c, cand, fv, o) ==
   /\ cand.check => TopSecure(c, fv)
-  /\ cand.gate = "same"     => VolOfR(c, TReg(cand.t)) = fv
+  /\ cand.gate = "same"     => TDirVol(c, cand.t) = fv
   /\ cand.gate = "fallback" => o.hfenv
   /\ TKind(cand.t) = "t2"   => TReg(cand.t) \notin c.altfile
 
@@ -385,7 +390,7 @@ InsecureFrozen ==
 \* C07: an item is always stored on the volume of its original location, unless both fallback switches were on
 PutVolumeOK ==
   [][out'.cmd = "put" =>
-       \A i \in items' \ items : VolOf(TReg(i.t)) = VolOf(i.r) \/ (out'.opts.hf /\ out'.opts.hfenv /\ i.t = "home")]_vars
+       \A i \in items' \ items : TDirVol(cfg, i.t) = VolOf(i.r) \/ (out'.opts.hf /\ out'.opts.hfenv /\ i.t = "home")]_vars
 
 \* C11: purging changes nothing outside the trash directories operated on
 PurgeFrame == [][out'.cmd \in {"empty", "rm"} => live' = live /\ dirs' = dirs]_vars
